@@ -6,6 +6,7 @@ Decided clauses (DESIGN.md section 6 C04):
  3. RDLENGTH equals the RDATA written; names are written as their label encoding or a 2-byte pointer from the table
 """
 from units.base import *
+import re
 from units import wire_decode as WD
 
 TRUSTED = TRUSTED_COMMON + [
@@ -117,7 +118,7 @@ SPECS = {
         r is Ok && rtype_wf(spec_rtype_of(self.rtype_with_data)) && rclass_wf(self.rclass) ==>
             rr_at(final(buffer).bytes(), old(buffer).bytes().len() as int) == Some(final(buffer).bytes().len() as int)
             && rr_rdata_is(*self, final(buffer).bytes(), old(buffer).bytes().len() as int), // [C04:written_record_reads_back_as_the_same_record]""",
-        "attrs": "#[verifier::rlimit(600)] // 20 match arms",
+        "attrs": "#[verifier::rlimit(2000)] #[verifier::spinoff_prover] // 20 match arms",
         "entry": "broadcast use lemma_be16_div_mod;",
         "anchors": [{"after": "self.name.serialise(buffer, true);", "proof": "let ghost w1__ = *buffer;"},
                     {"after": "let rdlength_index = buffer.index();", "at": "before", "proof": "let ghost w_mid__ = *buffer;"},
@@ -156,15 +157,84 @@ SPECS["Message::serialise"] = {"props": ["C04"], "contract": """    requires msg
         r is Ok ==> header_written(final(buffer).bytes(), self.header), // [C04:header_layout]
         r is Ok ==> counts_written(final(buffer).bytes(), *self), // [C04:counts_are_section_lengths]
         self.questions@.len() <= 0xffff && self.answers@.len() == 0 && self.authority@.len() == 0 && self.additional@.len() == 0 ==> r is Ok, // [C04:a_message_without_records_always_serialises]
+        // every question and every record of every section reads back, at its place, as the one that was written (type and class codes canonical)
+        r is Ok && msg_canonical(*self) ==> msg_end(final(buffer).bytes()) == Some(final(buffer).bytes().len() as int), // [C04:a_written_message_is_accepted_as_a_whole_by_the_independent_decoder]
+        r is Ok && msg_canonical(*self) ==> msg_is(*self, final(buffer).bytes()), // [C04:a_written_message_reads_back_as_the_same_message_section_by_section]
 """,
-    "loops": {str(k): {"kw": "for", "iter_name": "it__", "spec": """            invariant msg_names_wf(*self), buffer.table_good(), buffer.bytes().len() >= 12, is_prefix(hdr12__@, buffer.bytes()), hdr12__@.len() == 12, header_written(hdr12__@, self.header), counts_written(hdr12__@, *self),"""}
-              for k in range(4)},
-    "anchors": [{"after": "buffer.write_u16(arcount);", "proof": "let ghost hdr12__ = Ghost(buffer.bytes()); proof { broadcast use lemma_be16_div_mod; assert(buffer.bytes().len() == 12); }"}]}
+    "entry": "let ghost mut a0__: int = 0; let ghost mut n0__: int = 0; let ghost mut x0__: int = 0;",
+}
+# loop contracts and proof anchors per SECTION; build() attaches them to the loops in the order the source has them, so that
+# reordered loops fail an invariant instead of losing an anchor
+_BASE = "msg_names_wf(*self), buffer.table_good(), buffer.bytes().len() >= 12, is_prefix(hdr12__@, buffer.bytes()), hdr12__@.len() == 12, header_written(hdr12__@, self.header), counts_written(hdr12__@, *self),"
+_ITER = lambda sec: f"it__.seq().len() == self.{sec}@.len(), forall|j: int| 0 <= j < it__.seq().len() ==> *it__.seq()[j] == self.{sec}@[j],"
+MSG_LOOPS = {
+    "questions": {"kw": "for", "iter_name": "it__", "spec": "            invariant " + _BASE + "\n                " + _ITER("questions") + """
+                msg_canonical(*self) ==> qs_written(self.questions@, it__.index@ as int, buffer.bytes()) && q_off(buffer.bytes(), it__.index@ as nat) == buffer.bytes().len(), // [C04:a_written_message_reads_back_as_the_same_message_section_by_section]""",
+        "entry": "let ghost idx__ = it__.index@ as int; let ghost b1__ = buffer.bytes(); proof { assert(*question == self.questions@[idx__]); }"},
+    "answers": {"kw": "for", "iter_name": "it__", "spec": "            invariant " + _BASE + "\n                " + _ITER("answers") + """
+                msg_canonical(*self) ==> qs_written(self.questions@, self.questions@.len() as int, buffer.bytes()) && q_off(buffer.bytes(), self.questions@.len()) == a0__ && rrs_written(self.answers@, it__.index@ as int, buffer.bytes(), a0__) && rr_off(buffer.bytes(), a0__, it__.index@ as nat) == buffer.bytes().len(), // [C04:a_written_message_reads_back_as_the_same_message_section_by_section]""",
+        "entry": "let ghost idx__ = it__.index@ as int; let ghost b1__ = buffer.bytes(); proof { assert(*rr == self.answers@[idx__]); }"},
+    "authority": {"kw": "for", "iter_name": "it__", "spec": "            invariant " + _BASE + "\n                " + _ITER("authority") + """
+                msg_canonical(*self) ==> qs_written(self.questions@, self.questions@.len() as int, buffer.bytes()) && q_off(buffer.bytes(), self.questions@.len()) == a0__ && rrs_written(self.answers@, self.answers@.len() as int, buffer.bytes(), a0__) && rr_off(buffer.bytes(), a0__, self.answers@.len()) == n0__ && rrs_written(self.authority@, it__.index@ as int, buffer.bytes(), n0__) && rr_off(buffer.bytes(), n0__, it__.index@ as nat) == buffer.bytes().len(), // [C04:a_written_message_reads_back_as_the_same_message_section_by_section]""",
+        "entry": "let ghost idx__ = it__.index@ as int; let ghost b1__ = buffer.bytes(); proof { assert(*rr == self.authority@[idx__]); }"},
+    "additional": {"kw": "for", "iter_name": "it__", "spec": "            invariant " + _BASE + "\n                " + _ITER("additional") + """
+                msg_canonical(*self) ==> qs_written(self.questions@, self.questions@.len() as int, buffer.bytes()) && q_off(buffer.bytes(), self.questions@.len()) == a0__ && rrs_written(self.answers@, self.answers@.len() as int, buffer.bytes(), a0__) && rr_off(buffer.bytes(), a0__, self.answers@.len()) == n0__ && rrs_written(self.authority@, self.authority@.len() as int, buffer.bytes(), n0__) && rr_off(buffer.bytes(), n0__, self.authority@.len()) == x0__ && rrs_written(self.additional@, it__.index@ as int, buffer.bytes(), x0__) && rr_off(buffer.bytes(), x0__, it__.index@ as nat) == buffer.bytes().len(), // [C04:a_written_message_reads_back_as_the_same_message_section_by_section]""",
+        "entry": "let ghost idx__ = it__.index@ as int; let ghost b1__ = buffer.bytes(); proof { assert(*rr == self.additional@[idx__]); }"},
+}
+_KEEP_Q = "lemma_qs_written_keep(self.questions@, self.questions@.len() as int, b1__, buffer.bytes());"
+_KEEP_A = "lemma_rrs_written_keep(self.answers@, self.answers@.len() as int, b1__, buffer.bytes(), a0__);"
+_KEEP_N = "lemma_rrs_written_keep(self.authority@, self.authority@.len() as int, b1__, buffer.bytes(), n0__);"
+MSG_START = {"answers": "proof { a0__ = buffer.bytes().len() as int; }", "authority": "proof { n0__ = buffer.bytes().len() as int; }", "additional": "proof { x0__ = buffer.bytes().len() as int; }"}
+MSG_STEP = {
+    "questions": "proof { if msg_canonical(*self) { lemma_qs_written_extend(self.questions@, idx__, b1__, buffer.bytes()); } }",
+    "answers": "proof { if msg_canonical(*self) { " + _KEEP_Q + " lemma_rrs_written_extend(self.answers@, idx__, b1__, buffer.bytes(), a0__); } }",
+    "authority": "proof { if msg_canonical(*self) { " + _KEEP_Q + " " + _KEEP_A + " lemma_rrs_written_extend(self.authority@, idx__, b1__, buffer.bytes(), n0__); } }",
+    "additional": "proof { if msg_canonical(*self) { " + _KEEP_Q + " " + _KEEP_A + " " + _KEEP_N + " lemma_rrs_written_extend(self.additional@, idx__, b1__, buffer.bytes(), x0__); } }",
+}
+
+
+def _message_serialise_spec(src_text):
+    """Attach the per-section loop contracts / anchors to Message::serialise's loops in source order."""
+    i = src_text.index("fn serialise(&self, buffer: &mut WritableBuffer) -> Result<(), Error> {")
+    body = src_text[i:src_text.index("\nimpl Header", i)]
+    order = re.findall(r"for (?:question|rr) in &self\.(questions|answers|authority|additional) \{", body)
+    spec = dict(SPECS["Message::serialise"])
+    spec["loops"] = {str(k): MSG_LOOPS[sec] for k, sec in enumerate(order)}
+    anchors = [{"after": "buffer.write_u16(arcount);", "proof": "let ghost hdr12__ = Ghost(buffer.bytes()); proof { broadcast use lemma_be16_div_mod; assert(buffer.bytes().len() == 12); }"}]
+    k = 0
+    for sec in order:
+        if sec == "questions":
+            anchors.append({"after_re": r"question\.serialise\(buffer\);", "proof": MSG_STEP[sec]})
+        else:
+            anchors.append({"after_re": r"for rr in &self\." + sec + r" \{", "at": "before", "proof": MSG_START[sec]})
+            anchors.append({"after_re": r"\.serialise\(buffer\)\?;", "nth": k, "proof": MSG_STEP[sec]})
+            k += 1
+    anchors.append({"after": "Ok(())", "nth": -1, "at": "before", "proof": """proof {
+    if msg_canonical(*self) {
+        let b = buffer.bytes();
+        let qd = self.questions@.len(); let an = self.answers@.len(); let ns = self.authority@.len(); let ar = self.additional@.len();
+        assert forall|j: nat| j < qd implies question_at(b, #[trigger] q_from(b, 12, j)) is Some by { lemma_q_from_12(b, j); let ji = j as int; assert(question_at(b, q_off(b, ji as nat)) is Some); }
+        lemma_questions_end_chain(b, 12, qd); lemma_q_from_12(b, qd);
+        assert forall|j: nat| j < an implies rr_at(b, #[trigger] rr_off(b, a0__, j)) is Some by { let ji = j as int; assert(rr_at(b, rr_off(b, a0__, ji as nat)) is Some); }
+        lemma_rrs_end_chain(b, a0__, an);
+        assert forall|j: nat| j < ns implies rr_at(b, #[trigger] rr_off(b, n0__, j)) is Some by { let ji = j as int; assert(rr_at(b, rr_off(b, n0__, ji as nat)) is Some); }
+        lemma_rrs_end_chain(b, n0__, ns);
+        assert forall|j: nat| j < ar implies rr_at(b, #[trigger] rr_off(b, x0__, j)) is Some by { let ji = j as int; assert(rr_at(b, rr_off(b, x0__, ji as nat)) is Some); }
+        lemma_rrs_end_chain(b, x0__, ar);
+        assert(b[4] == hdr12__@[4] && b[5] == hdr12__@[5] && b[6] == hdr12__@[6] && b[7] == hdr12__@[7] && b[8] == hdr12__@[8] && b[9] == hdr12__@[9] && b[10] == hdr12__@[10] && b[11] == hdr12__@[11]);
+    }
+}"""})
+    spec["anchors"] = anchors
+    return spec
+
+
 SPECS["Message::to_octets"] = {"props": ["C04"], "contract": """    requires msg_names_wf(*self),
     ensures r is Ok ==> bmv(&r->Ok_0).len() >= 12, // [C04:at_least_header]
         r is Ok ==> header_written(bmv(&r->Ok_0), self.header), // [C04:header_layout]
         r is Ok ==> counts_written(bmv(&r->Ok_0), *self), // [C04:counts_are_section_lengths]
-        self.questions@.len() <= 0xffff && self.answers@.len() == 0 && self.authority@.len() == 0 && self.additional@.len() == 0 ==> r is Ok, // [C04:a_message_without_records_always_serialises]"""}
+        self.questions@.len() <= 0xffff && self.answers@.len() == 0 && self.authority@.len() == 0 && self.additional@.len() == 0 ==> r is Ok, // [C04:a_message_without_records_always_serialises]
+        r is Ok && msg_canonical(*self) ==> msg_end(bmv(&r->Ok_0)) == Some(bmv(&r->Ok_0).len() as int), // [C04:a_written_message_is_accepted_as_a_whole_by_the_independent_decoder]
+        r is Ok && msg_canonical(*self) ==> msg_is(*self, bmv(&r->Ok_0)), // [C04:a_written_message_reads_back_as_the_same_message_section_by_section]"""}
 
 
 def build(G):
@@ -175,7 +245,8 @@ def build(G):
     G.item(S, "enum", "Error")
     G.item(S, "struct", "WritableBuffer")
     G.file(os.path.join(PRELUDE, "wire_spec.rs"))
-    nd = WD.SPEC_RS[WD.SPEC_RS.index("// ---- C03 stage 2"):WD.SPEC_RS.index("pub open spec fn questions_end(")]
+    # the independent decoder's reading of names, questions, records and whole messages (shared with unit wire_decode)
+    nd = WD.SPEC_RS[WD.SPEC_RS.index("// ---- C03 stage 2"):WD.SPEC_RS.index("pub open spec fn msg_counts_ok(")]
     G.raw(nd, ("spec", "name spec decoder (shared with wire_decode)"))
     G.file(os.path.join(VERIF, "units", "wire_codec.spec.rs"))
     specs = dict(SPECS)
@@ -194,11 +265,15 @@ def build(G):
     G.impl(S, "Header", ["serialise"], "Header::", specs)
     G.impl(S, "Question", ["serialise"], "Question::", specs)
     G.impl(S, "ResourceRecord", ["serialise"], "ResourceRecord::", specs)
+    specs["Message::serialise"] = _message_serialise_spec(S.s)
     G.impl(S, "Message", ["to_octets", "serialise"], "Message::", specs)
     end(G)
 
 
 CANARIES = [
+    {"name": "authority_and_additional_sections_written_in_the_wrong_order", "file": SER, "old": "        for rr in &self.authority {\n            rr.serialise(buffer)?;\n        }\n        for rr in &self.additional {\n            rr.serialise(buffer)?;\n        }", "new": "        for rr in &self.additional {\n            rr.serialise(buffer)?;\n        }\n        for rr in &self.authority {\n            rr.serialise(buffer)?;\n        }"},
+    {"name": "first_answer_written_twice", "file": SER, "old": "        for rr in &self.answers {\n            rr.serialise(buffer)?;\n        }", "new": "        for rr in &self.answers {\n            self.answers[0].serialise(buffer)?;\n        }"},
+    {"name": "questions_written_after_the_answers", "file": SER, "old": "        for question in &self.questions {\n            question.serialise(buffer);\n        }\n        for rr in &self.answers {\n            rr.serialise(buffer)?;\n        }", "new": "        for rr in &self.answers {\n            rr.serialise(buffer)?;\n        }\n        for question in &self.questions {\n            question.serialise(buffer);\n        }"},
     {"name": "pointer_written_without_its_tag_bits", "file": SER, "old": "                buffer.write_u16(ptr);\n                return;", "new": "                buffer.write_u16(ptr & 0b0011_1111_1111_1111);\n                return;"},
     {"name": "name_memoised_after_it_is_written", "file": SER, "old": "        buffer.memoise_name(self);\n        for label in &self.labels {\n            buffer.write_u8(label.len());\n            buffer.write_octets(label.octets());\n        }", "new": "        for label in &self.labels {\n            buffer.write_u8(label.len());\n            buffer.write_octets(label.octets());\n        }\n        buffer.memoise_name(self);"},
     {"name": "question_class_written_before_type", "file": SER, "old": "        self.qtype.serialise(buffer);\n        self.qclass.serialise(buffer);", "new": "        self.qclass.serialise(buffer);\n        self.qtype.serialise(buffer);"},
